@@ -388,6 +388,10 @@ def to_vector(c):
     if c is None or c is False:
         return c
     if hasattr(c, vector):
+        labels = list(c[vector].values)
+        if labels != ['x', 'y', 'z'] and set(labels) == {'x', 'y', 'z'}:
+            # the theories read the components by position
+            c = c.sel({vector: ['x', 'y', 'z']})
         # already labelled: only make sure it has unit length
         norm = c.reduce(np.hypot.reduce, dim=vector)
         if np.all(norm.values == 1):
